@@ -735,6 +735,16 @@ pub fn c09_nonint<const C: usize>(p: &mut Pool)
 where
     Cap<C>: Store<C>,
 {
+    c09_nonint_k::<C, 4>(p)
+}
+
+/// `KA` < 4 fixes the kind of A's request and restricts B's request to the two mutating kinds (a
+/// read by B cannot interfere through storage): the any-kind harness takes 15 min whatever the
+/// chain bound, the per-kind ones run side by side. `KA` = 4 leaves both symbolic.
+pub fn c09_nonint_k<const C: usize, const KA: u8>(p: &mut Pool)
+where
+    Cap<C>: Store<C>,
+{
     let db = build_db::<C>(p, C - 1, small_b(C), TsMode::Fixed, false);
     rng_load(p);
     let ida = db.cl[0].id;
@@ -742,8 +752,13 @@ where
     let other = p.u128();
     assume(other != ida && other != db.cl[1].id);
     let idb = if b_known { db.cl[1].id } else { other };
-    let opa = any_op(p, ida);
-    let opb = any_op(p, idb);
+    let mut opa = any_op(p, ida);
+    let mut opb = any_op(p, idb);
+    if KA < 4 {
+        opa.kind = KA;
+        let b_snap = p.bool();
+        opb.kind = if b_snap { 2 } else { 0 };
+    }
     assume_rng_fresh(&db, &[opa.arg, opb.arg, ida, idb]);
     let (h, server) = mk_server(db, ServerConfig::default());
     h.w().mon.check_client = false;
@@ -763,9 +778,15 @@ where
     chk!(mid.cl[0] == db.cl[0], "c09: B's request does not touch A");
     chk!(end1.cl[1] == mid.cl[1], "c09: A's request does not touch B");
     chk!(end2.cl[1] == db.cl[1], "c09: A's request alone does not touch B");
-    cov!(matches!(rb, OpRes::Accepted { .. }) && matches!(ra1, OpRes::Accepted { .. }), "c09.cov: both append");
-    cov!(db.cl[1].pos_of(opa.arg) != C && opa.kind == 1, "c09.cov: A asks for the child of one of B's versions");
-    cov!(db.cl[1].pos_of(opa.arg) != C && opa.kind == 2, "c09.cov: A uploads a snapshot for one of B's versions");
+    if KA == 0 || KA == 4 {
+        cov!(matches!(rb, OpRes::Accepted { .. }) && matches!(ra1, OpRes::Accepted { .. }), "c09.cov: both append");
+    }
+    if KA == 1 || KA == 4 {
+        cov!(db.cl[1].pos_of(opa.arg) != C && opa.kind == 1, "c09.cov: A asks for the child of one of B's versions");
+    }
+    if KA == 2 || KA == 4 {
+        cov!(db.cl[1].pos_of(opa.arg) != C && opa.kind == 2, "c09.cov: A uploads a snapshot for one of B's versions");
+    }
     cov!(db.cl[0].pos_of(opb.arg) != C && opb.kind == 0, "c09.cov: B appends on one of A's versions");
     std::mem::forget(server);
 }
